@@ -3,7 +3,7 @@
 //! Every case builds a tiny bare server repository (refs written by hand, objects borrowed from a shared store through
 //! `objects/info/alternates`), lets gitoxide perform the real handshake (+ `ls-refs` for v2) against the local
 //! `git-upload-pack` through the file:// transport, and compares the reported refs with what `git for-each-ref`,
-//! `git symbolic-ref` and `git rev-parse <ref>^{}` say about the server.
+//! `git symbolic-ref` and `git cat-file --batch-check` on `<ref>^{}` say about the server.
 use crate::util;
 use gix::protocol::handshake::Ref;
 use serde::{Deserialize, Serialize};
@@ -28,9 +28,9 @@ struct Case {
 const REFS: [(&str, &str); 11] = [
     ("refs/heads/a", "c1"),
     ("refs/tags/ann", "tag_ann"),
-    ("refs/tags/nest", "tag_nest"),
     ("refs/heads/sym", "ref: refs/heads/a"),
     // thorough only
+    ("refs/tags/nest", "tag_nest"),
     ("refs/heads/b/c", "c2"),
     ("refs/tags/lw", "c1"),
     ("refs/remotes/o/x", "c2"),
@@ -40,11 +40,10 @@ const REFS: [(&str, &str); 11] = [
     ("refs/tags/tree", "tag_tree"),
     ("refs/tags/blob", "blob"),
 ];
-const QUICK_REFS: usize = 4;
+const QUICK_REFS: usize = 3;
 const MAIN_REFS: usize = 7;
 /// (protocol.version, filter)
-const COMBOS: [(u8, u8); 7] = [(0, 0), (1, 1), (2, 0), (2, 1), (2, 2), (0, 1), (1, 0)];
-const QUICK_COMBOS: usize = 5;
+const COMBOS: [(u8, u8); 5] = [(0, 0), (1, 1), (2, 0), (2, 1), (2, 2)];
 const HEADS: [&str; 6] = ["ref: refs/heads/a", "c1", "ref: refs/heads/unborn", "ref: refs/heads/sym", "ref: refs/tags/ann", "tag_ann"];
 
 /// shared object store + the ids in it
@@ -254,11 +253,10 @@ fn gix_refs(client: &Path, server: &Path, proto: u8, filter: u8) -> Result<(Vec<
 pub fn run(run: &'static Run) {
     util::hermetic_env();
     let nrefs = run.pick(QUICK_REFS, MAIN_REFS);
-    let ncombos = run.pick(QUICK_COMBOS, COMBOS.len());
     run.rule(format!(
         "server repositories: every subset of the refs {:?} x HEAD in {:?} (symref to branch / detached at commit / unborn / symref to a symref / symref to an annotated tag / detached at a tag object; \
          keys c1,c2 = commits, tag_ann = annotated tag of c2, tag_nest = tag of a tag of c1, tag_tree = tag of a tree, blob); \
-         client: protocol.version 0,1,2 x ref-prefix filter (none; prefixes of the default branch+tag specs; prefixes of refspec HEAD — the last only with v2 where prefixes exist); \
+         client: (protocol.version, ref-prefix filter) in [(0,none),(1,branch+tag spec prefixes — ignored by v0/v1),(2,none),(2,prefixes of the default branch+tag specs),(2,prefixes of refspec HEAD)]; thorough adds sub-check `exotic`: base [a, ann, sym] + every non-empty subset of [symref to tag, symref to symref, tag of a tree, lightweight tag on a blob]; \
          served by git-upload-pack via file://. non-trivial = at least one ref had to be reported and the reported list equals the oracle's",
         REFS[..nrefs].iter().map(|r| r.0).collect::<Vec<_>>(),
         HEADS
@@ -353,7 +351,7 @@ pub fn run(run: &'static Run) {
             for k in 0..=names.len() {
                 vkit::enumerate::subsets(&names, k, k, |s| {
                     for head in HEADS {
-                        for &(proto, filter) in &COMBOS[..ncombos] {
+                        for &(proto, filter) in &COMBOS {
                             emit(Case { refs: s.iter().map(|x| x.to_string()).collect(), head: head.to_string(), proto, filter });
                         }
                     }
@@ -372,7 +370,7 @@ pub fn run(run: &'static Run) {
                 for k in 1..=names.len() {
                     vkit::enumerate::subsets(&names, k, k, |s| {
                         for head in HEADS {
-                            for &(proto, filter) in &COMBOS[..QUICK_COMBOS] {
+                            for &(proto, filter) in &COMBOS {
                                 let mut refs: Vec<String> = ["refs/heads/a", "refs/tags/ann", "refs/heads/sym"].iter().map(|x| x.to_string()).collect();
                                 refs.extend(s.iter().map(|x| x.to_string()));
                                 emit(Case { refs, head: head.to_string(), proto, filter });
@@ -385,6 +383,9 @@ pub fn run(run: &'static Run) {
         );
     }
     run.cov_add("oracle_calls_git", GIT_CALLS.load(Ordering::Relaxed));
+    if run.over_budget() {
+        return;
+    }
     run.require("some case had to report a symbolic ref", SYMBOLIC.load(Ordering::Relaxed) > 0);
     run.require("some case had to report a peeled tag", PEELED.load(Ordering::Relaxed) > 0);
     run.require("some case had to report an unborn HEAD", UNBORN.load(Ordering::Relaxed) > 0);
